@@ -756,6 +756,16 @@ fn deadlock_cases(loops: usize) -> Vec<DeadlockCase> {
                 format!("export run = |c|\n  for i in 0..{}\n    c.insert(0, i)\n    c.remove(0)\n  ['u']\n", loops * 2 / 3),
             ],
         },
+        DeadlockCase {
+            id: "F-C19-13",
+            kind: "l",
+            init: json!([1]),
+            scripts: vec![
+                format!("export run = |c|\n  c.push(c)\n  for i in 0..{}\n    try\n      x = json.to_string(c)\n    catch _\n      null\n  ['u']\n", loops * 2 / 3),
+                format!("export run = |c|\n  for i in 0..{}\n    c.insert(0, i)\n    c.remove(0)\n  ['u']\n", loops * 2 / 3),
+                format!("export run = |c|\n  for i in 0..{}\n    c.insert(0, i)\n    c.remove(0)\n  ['u']\n", loops * 2 / 3),
+            ],
+        },
     ]
 }
 
